@@ -132,10 +132,31 @@ func (c *Ctx) c16B() {
 	for i := 0; i < c.N(40, 300); i++ {
 		gs = append(gs, gast.Generate(rng, p))
 	}
+	c.c16BRun(gs, [][]string{{}}, false, rng)
+	// left-recursive grammars (the leader's memo table is always on, expression memo is off inside
+	// left-recursive rules): budgets must hold there too, with and without Memoize
+	lr := c16LRStrata()
+	for i := 0; i < c.N(14, 120); i++ {
+		lr = append(lr, genLR(rng, i%2 == 1))
+	}
+	c.c16BRun(lr, [][]string{{"-support-left-recursion"}}, true, rng)
+}
+
+func c16LRStrata() []*gast.Grammar {
+	mk := func(rules ...*gast.Rule) *gast.Grammar { return &gast.Grammar{Rules: rules} }
+	r := func(n string, e *gast.Expr) *gast.Rule { return &gast.Rule{Name: n, Expr: e} }
+	idle := func() *gast.Expr { return gast.Star(gast.Opt(gast.L("x"))) }
+	return []*gast.Grammar{
+		mk(r("S", gast.S(gast.Ref("List"), gast.NotE(gast.Dot()))), r("List", gast.C(gast.S(gast.Ref("List"), gast.L(","), idle()), idle()))),
+		mk(r("S", gast.Ref("Sum")), r("Sum", gast.C(gast.A(gast.S(gast.Lab("a", gast.Ref("Sum")), gast.L("+"), gast.Lab("b", gast.Cl(&gast.ClassSpec{Ranges: [][2]rune{{'0', '9'}}}))), 1, mon.Spec{}), gast.Cl(&gast.ClassSpec{Ranges: [][2]rune{{'0', '9'}}})))),
+	}
+}
+
+func (c *Ctx) c16BRun(gs []*gast.Grammar, flagSets [][]string, isLR bool, rng *rand.Rand) {
 	for _, g := range gs {
 		g.Finalize()
 	}
-	bt := c.BuildUnits(gs, [][]string{{}}, false, nil)
+	bt := c.BuildUnits(gs, flagSets, false, func(int) bool { return isLR })
 	defer bt.Close()
 	for _, b := range bt.batches {
 		if b != nil {
@@ -158,12 +179,18 @@ func (c *Ctx) c16B() {
 		}
 		alpha := u.G.Alphabet()
 		var ins [][]byte
-		ins = append(ins, []byte{}, []byte("b"), []byte("ab"), []byte("xab"))
+		ins = append(ins, []byte{}, []byte("b"), []byte("ab"), []byte("xab"), []byte("x,x,,x"), []byte("1+2+3+4+5+6+7+8+9+1+2+3+4+5+6+7+8+9+1+2"))
+		if isLR {
+			ins = append(ins, lrInputs(u.G, rng, 6)...)
+		}
 		for i := 0; i < c.N(6, 14); i++ {
 			ins = append(ins, gast.Mutate(rng, u.G.Sentence(rng, u.G.Rules[0].Name, alpha, 5), alpha, false))
 		}
 		for _, in := range ins {
-			for _, o := range [][3]bool{{true, false, false}, {true, false, true}, {false, true, false}, {true, true, true}} {
+			for _, o := range [][3]bool{{true, false, false}, {true, false, true}, {false, true, false}, {true, true, true}, {false, false, false}} {
+				if o == [3]bool{false, false, false} && !isLR {
+					continue // the plain configuration is decided against the model in part A
+				}
 				k := key{u, in, o[0], o[1], o[2]}
 				id := fmt.Sprintf("b1/%d", len(keys))
 				keys = append(keys, k)
@@ -244,7 +271,7 @@ func (c *Ctx) c16B() {
 func (c *Ctx) reportC16Hang(u *Unit, in []byte, cs *mon.Case, r *mon.Result, n uint64) {
 	if r.Timeout && r.Cnt1 == r.Cnt2 && r.Cnt1 <= n {
 		c.Report(&Violation{Class: "C16/hang-frozen-counter", Summary: fmt.Sprintf("Parse with MaxExpressions(%d) did not return: the live expression counter stood at %d on two samples one second apart while the parse was still running (a loop that charges nothing): grammar %q input %q memo=%t debug=%t stats=%t",
-			n, r.Cnt1, gast.Short(u.G), in, cs.Memo, cs.Debug, cs.Stats), Grammar: u.Text, Input: in, Case: cs,
+			n, r.Cnt1, gast.Short(u.G), in, cs.Memo, cs.Debug, cs.Stats), Grammar: u.Text, Flags: u.Flags, Input: in, Case: cs,
 			Sig: c16Sig(u.G, cs)})
 		return
 	}
